@@ -90,6 +90,9 @@ def cases(tier, seed):
     out.append(('coarse_interval_straddles_start', dict(kind='coarse13', opt='coarse', kind13='contract', T=4, win=(-1, 5))))
     out.append(('coarse_window_ends_inside_unaligned', dict(kind='coarse13', opt='coarse', kind13='contract', T=6, win=(1, 4), ec=True)))
     out.append(('coarse_interval_straddles_end', dict(kind='coarse13', opt='coarse', kind13='contract', T=5, win=(2, 9), ec=True)))
+    # sequences of calls on the same objects (decided with C10's history machinery: the final problem equals that of fresh objects)
+    # -- take periods partly outside the horizon are prorated by the covered duration in every call (rolling horizons on the same objects)
+    out.append(('history_take_prorated_again_after_an_earlier_setup', common.delegated('c10', pf='dicts', final='h', histories=[['short'], ['same']])))
     return out
 
 
